@@ -282,6 +282,24 @@ class FnSplicer:
             self.ed.insert(rf.ct(cbrace).end, ' }', 1)
             self.desugared.append({'rule': 'R3', 'loop': n, 'before': before, 'after': new_head + ' .. } }'})
             return
+        if d == 'R5':
+            # for PAT in EXPR { B }  =>  { let mut __it = EXPR; loop { let PAT = match __it.next() { Some(__v) => __v, None => break }; B } }
+            # (the Rust reference desugaring of `for` over an Iterator; needed because this Verus rejects `continue` in `for`)
+            kw = rf.ct(kwci)
+            if kw.text != 'for':
+                raise ExtractError(f'{self._where()}: R5 needs a for loop')
+            k = kwci + 1
+            while k < obrace and rf.ct(k).text != 'in':
+                k = rf.match(k) + 1 if rf.ct(k).text in ('(', '[') else k + 1
+            if k >= obrace:
+                raise ExtractError(f'{self._where()}: R5: no `in`')
+            PAT = rf.spaced(kwci + 1, k); EXPR = rf.spaced(k + 1, obrace)
+            before = rf.spaced(kwci, obrace + 1)
+            new_head = f'{{ let mut __it = {EXPR}; loop\n{clauses}{{ let {PAT} = match __it.next() {{ Some(__v) => __v, None => break }};'
+            self.ed.replace(kw.start, rf.ct(obrace).end, new_head)
+            self.ed.insert(rf.ct(cbrace).end, ' }', 1)
+            self.desugared.append({'rule': 'R5', 'loop': n, 'before': before, 'after': new_head + ' .. } }'})
+            return
         if d:
             raise ExtractError(f'unknown desugaring {d}')
         if ls.get('iter_name'):
@@ -442,7 +460,7 @@ class Unit:
     def _origin(self, rel, item):
         return f'{rel}:{item.line()}'
 
-    def item(self, rel, selector, cfg_not=None, nth=None, derive=KEEP_DERIVE):
+    def item(self, rel, selector, cfg_not=None, nth=None, derive=KEEP_DERIVE, structural=False):
         """copy a type/trait item verbatim (after DROPPED)."""
         rf = self.file(rel)
         it = rf.get_item(selector, cfg_not=cfg_not, nth=nth)
@@ -450,7 +468,11 @@ class Unit:
         ed = Edits(rf, a, b)
         _clean_tokens(rf, ed, it.start, it.end, it.attrs, inner_attrs_ok=True, keep_derive=derive)
         desug = []
-        self.pieces.append(Piece('type', ed.render().strip() + '\n', name=selector, origin=self._origin(rel, it),
+        # `structural`: the item derives PartialEq in /repo, i.e. `==` IS structural equality; Verus needs the marker derive to know
+        pre = '#[derive(Structural)]\n' if structural else ''
+        if structural and not any('PartialEq' in rf.joined(a, b) for a, b in it.attrs):
+            raise ExtractError(f'{rel}: {selector} does not derive PartialEq; cannot be marked Structural')
+        self.pieces.append(Piece('type', pre + ed.render().strip() + '\n', name=selector, origin=self._origin(rel, it),
                                  sha256=hashlib.sha256(it.raw_text().encode()).hexdigest(), desugared=desug))
         return it
 
